@@ -53,7 +53,10 @@ def run_case(case):
         order = sorted(case["nodes"], key=lambda n: n["offset"])
         t0 = net.sim.now
         for n in order:
-            net.wait(lambda: net.sim.now - t0 >= n["offset"] * MS, 1000)
+            net.wait(lambda: net.sim.now - t0 >= n["offset"] * MS, max(1000, n["offset"] + 1000))
+            for who in n.get("deny_before", ()):
+                # applications of already joined nodes (or of the master) stop accepting children (public attribute)
+                net.ctl["m" if who == "m" else key(who)].node.allow_children = False
             k = key(n["id"])
             net.start([k])
 
@@ -480,12 +483,34 @@ def _master_side_release():
         yield {"nodes": nodes, "master_mcu": {"spi": 50, "jit": 0, "seed": 7, "poll": 100}, "script": script, "concurrent": False, "loss": "D", "timeout": 7.5}
 
 
+def _only_one_parent_left():
+    """k nodes join one after the other; then the master and all of them but one stop accepting children, and another node
+    joins: it has to go through that one (every contact address 0o1..0o5, and a level-2 contact)"""
+    base = [11, 22, 33, 44, 55]
+    for k in (3, 5):
+        for keep in range(k):
+            ids = base[:k] + [99]
+            nodes = [{"id": i, "kind": "mesh", "offset": 400 * n, "mcu": {"spi": 50, "jit": 0, "seed": n, "poll": 100}} for n, i in enumerate(ids)]
+            nodes[-1]["offset"] = 400 * k + 1500
+            nodes[-1]["deny_before"] = ["m"] + [i for j, i in enumerate(base[:k]) if j != keep]
+            yield {"nodes": nodes, "master_mcu": {"spi": 50, "jit": 0, "seed": 7, "poll": 100}, "concurrent": False, "loss": "D", "timeout": 7.5,
+                   "script": [["lookup_addr", k, 99], ["send", 0, "of", k, 1, "6f6b"], ["check", k, True]]}
+    # a level-2 contact: five fill level 1, the sixth joins below one of them, then only the sixth accepts children
+    ids = base + [66, 99]
+    nodes = [{"id": i, "kind": "mesh", "offset": 400 * n, "mcu": {"spi": 50, "jit": 0, "seed": n, "poll": 100}} for n, i in enumerate(ids)]
+    nodes[-1]["offset"] = 400 * 6 + 2500
+    nodes[-1]["deny_before"] = ["m"] + base
+    yield {"nodes": nodes, "master_mcu": {"spi": 50, "jit": 0, "seed": 7, "poll": 100}, "concurrent": False, "loss": "D", "timeout": 7.5,
+           "script": [["lookup_addr", 6, 99], ["send", 0, "of", 6, 1, "6f6b"], ["check", 6, True]]}
+
+
 def _small_ids_all_pairs():
     """node IDs 1..5 (and 8..13, the numeric values of level-2 addresses) joined in ascending and descending order, so that
     IDs coincide numerically with other nodes' addresses; then every node sends to every other node ID"""
     for ids in ([1, 2, 3, 4, 5], [5, 4, 3, 2, 1], [3, 9, 1, 11, 5, 10, 12], [12, 10, 5, 11, 1, 9, 3]):
         nodes = [{"id": i, "kind": "mesh", "offset": 400 * n, "mcu": {"spi": 50, "jit": 0, "seed": n, "poll": 100}} for n, i in enumerate(ids)]
         script = [["send", a, "of", b, 1, "%02x%02x" % (a, b)] for a in range(len(ids)) for b in range(len(ids)) if a != b]
+        script += [op for a in range(len(ids)) for b in range(len(ids)) if a != b for op in (["lookup_id", a, "of", b], ["lookup_addr", a, ids[b]])]
         yield {"nodes": nodes, "master_mcu": {"spi": 50, "jit": 0, "seed": 7, "poll": 100}, "script": script, "concurrent": False, "loss": "D", "timeout": 7.5}
 
 
@@ -494,10 +519,12 @@ def parts(tier):
         return [Part("relay-child-stagger-sweep", "enum", _pair_sweep(200), exhaustive=True),
                 Part("ids-equal-to-address-values-all-pairs", "enum", _small_ids_all_pairs, exhaustive=True),
                 Part("master-side-release", "enum", _master_side_release, exhaustive=True),
+                Part("only-one-parent-left", "enum", _only_one_parent_left, exhaustive=True),
                 Part("repeated-identical-lookups", "enum", lambda: _repeated_lookup(4), exhaustive=True),
                 Part("release-after-send", "enum", _release_after_send, exhaustive=True), Part("generated", "gen", lambda: _strategy(8), n=96)]
     return [Part("relay-child-stagger-sweep", "enum", _pair_sweep(25), exhaustive=True),
             Part("ids-equal-to-address-values-all-pairs", "enum", _small_ids_all_pairs, exhaustive=True),
             Part("master-side-release", "enum", _master_side_release, exhaustive=True),
+            Part("only-one-parent-left", "enum", _only_one_parent_left, exhaustive=True),
             Part("repeated-identical-lookups", "enum", lambda: _repeated_lookup(8), exhaustive=True),
             Part("release-after-send", "enum", _release_after_send, exhaustive=True), Part("generated", "gen", lambda: _strategy(12), n=3000)]
